@@ -40,3 +40,91 @@ Print Assumptions C07_sites_covered.
 Print Assumptions C07_lower_total.
 Print Assumptions C07_lexer_total.
 Print Assumptions C07_token_bounds.
+
+(* ------------------------------------------------------------------------------------------------- *)
+(* The parser (sylt-parser/src/{parser,statement,expression}.rs) is total.  Model: Parse/Parser.v, tied
+   to the real parser token-for-token by the C13/C14/C07 plug-ins; proofs: Parse/ParserTotal.v.
+   The model renders every place where the Rust code would panic or spin as the outcome [Panic]
+   (`exprs.remove(0)` / `types.remove(0)` on an empty vector, the three `unreachable!()`, Context::prev
+   walking back into index 0 over comments) and running out of recursion fuel as [Fuel]. *)
+From Sylt Require Import Syntax.Tok Syntax.Ast Parse.PrecTable Parse.Parser Parse.ParserTotal.
+From Sylt Require Gen.GenPrec.
+
+(* the regenerated operator table meets the side condition of the totality proof: its postfix tokens are
+   the four that sub_assignable dispatches on (unary, binary and valid-infix tokens are keywords/punctuation
+   by construction of [interp]) *)
+Theorem C07_parser_table_ok : total_ok (interp GenPrec.table).
+Proof. apply total_ok_interp. vm_compute. reflexivity. Qed.
+
+(* Termination and progress: the explicit, linear fuel [parse_fuel] suffices for every token list.  With
+   at least that much fuel, parsing a whole file never runs out of fuel (every loop of the parser - top
+   level statements, blocks, precedence climbing, argument/tuple/list/field lists, type lists, enum and
+   blob bodies, and the skip-to-next-line error recovery - consumes a token per round or descends in a
+   finite rank), never reaches a panic site, and ends in a tree or in a NON-EMPTY list of errors. *)
+Theorem C07_parser_total : forall (ts : list tok) (f : nat), parse_fuel ts <= f ->
+  match parse_program (interp GenPrec.table) f ts with
+  | Ok _ => True
+  | Err _ errors => errors <> []
+  | Fuel => False
+  | Panic => False
+  end.
+Proof. intros ts f Hf. exact (parse_program_total _ C07_parser_table_ok ts f Hf). Qed.
+
+Theorem C07_parser_fuel_linear : forall ts : list tok, parse_fuel ts = 6 * length ts + 6.
+Proof. reflexivity. Qed.
+
+(* the same for the other public entry points (expression, statement, outer_statement, parse_type), and
+   for every operator table with the side condition, not just today's *)
+Theorem C07_parser_entries_total : forall (T : ptab), total_ok T -> forall (ts : list tok) (f : nat),
+  parse_fuel ts <= f ->
+  settled (parse_program T f ts) /\ settled (parse_statement T f ts) /\ settled (parse_outer_statement T f ts)
+  /\ settled (parse_expression T f ts) /\ settled (parse_type_top T f ts).
+Proof.
+  intros T H ts f Hf. repeat split.
+  - apply parse_program_total; assumption.
+  - apply parse_statement_total; assumption.
+  - apply parse_outer_statement_total; assumption.
+  - apply parse_expression_total; assumption.
+  - apply parse_type_total; assumption.
+Qed.
+
+(* [settled] is what it should be *)
+Theorem C07_settled_spec : forall (A : Type) (r : res A),
+  settled r <-> (exists a, r = Ok a) \/ (exists c e es, r = Err c (e :: es)).
+Proof.
+  intros A r. split.
+  - destruct r as [a|c es| |]; cbn [settled]; try contradiction.
+    + intros _. left. exists a. reflexivity.
+    + intros H. right. destruct es as [|e es]; [contradiction H; reflexivity|]. exists c, e, es. reflexivity.
+  - intros [[a ->]|(c & e & es & ->)]; cbn [settled]; [exact I|discriminate].
+Qed.
+
+(* an accepted file was read to its end: acceptance is never a prefix parse *)
+Theorem C07_parser_accepts_whole_input : forall (T : ptab) (ts : list tok) (f : nat) (ss : list stmt) (c : ctx),
+  parse_program T f ts = Ok (ss, c) -> token c = TEOF.
+Proof. intros T ts f ss c. apply parse_program_ok_at_end. Qed.
+
+(* non-vacuity: `x :: 1⏎` is accepted, `x ::⏎z⏎y ::⏎` gives two errors (the parser recovered at a line
+   break and went on), and with too little fuel the model does report [Fuel] - the bound is doing work *)
+Example C07_parser_total_witness :
+  let T := interp GenPrec.table in
+  let good := [TIdent [120%N]; TK KColonColon; TInt 1%N; TK KNewline] in
+  let bad := [TIdent [120%N]; TK KColonColon; TK KNewline; TIdent [122%N]; TK KNewline;
+              TIdent [121%N]; TK KColonColon; TK KNewline] in
+  (exists ss c, parse_program T (parse_fuel good) good = Ok (ss, c) /\ length ss = 1)
+  /\ (exists c e1 e2, parse_program T (parse_fuel bad) bad = Err c [e1; e2])
+  /\ parse_program T 3 good = Fuel.
+Proof.
+  vm_compute. split; [|split].
+  - eexists. eexists. split; reflexivity.
+  - eexists. eexists. eexists. reflexivity.
+  - reflexivity.
+Qed.
+
+Print Assumptions C07_parser_table_ok.
+Print Assumptions C07_parser_total.
+Print Assumptions C07_parser_fuel_linear.
+Print Assumptions C07_parser_entries_total.
+Print Assumptions C07_settled_spec.
+Print Assumptions C07_parser_accepts_whole_input.
+Print Assumptions C07_parser_total_witness.
